@@ -36,14 +36,18 @@ fn c10_probe() {
 }
 unsafe fn fe_recvmsg(fd: RawFd, iovecs: &mut [libc::iovec], in_fds: &mut [RawFd]) -> vmm_sys_util::errno::Result<(usize, usize)> {
     c10_probe();
+    g::note_recv();
     g::ghost_recvmsg(fd, iovecs, in_fds)
 }
 fn fe_sendmsg<D: vmm_sys_util::sock_ctrl_msg::IntoIovec>(fd: RawFd, out_data: &[D], out_fds: &[RawFd]) -> vmm_sys_util::errno::Result<usize> {
     c10_probe();
+    // SAFETY: single-threaded harness
+    unsafe { g::note_send() };
     g::ghost_sendmsg(fd, out_data, out_fds)
 }
 unsafe fn c10_after_call() {
     assert!(!LOCK_FREE_AT_SYSCALL.0, "C10: the endpoint lock was free during a socket call of the transaction");
+    assert!(!g::G.lock_retaken, "C10: the endpoint lock was released and taken again between a request and the reading of its reply");
     if !NODE_PTR.0.is_null() {
         let free = (*NODE_PTR.0).try_lock().is_ok();
         assert!(free, "C10: the endpoint lock must be released when the call returns");
@@ -652,6 +656,7 @@ macro_rules! e_fe {
         #[kani::unwind(5)]
         #[kani::stub(vmm_sys_util::sock_ctrl_msg::raw_recvmsg, fe_recvmsg)]
         #[kani::stub(vmm_sys_util::sock_ctrl_msg::raw_sendmsg, fe_sendmsg)]
+        #[kani::stub(std::sync::Mutex::lock, g::ghost_mutex_lock)]
         #[kani::stub(libc::close, g::ghost_close)]
         #[kani::stub(<std::os::fd::OwnedFd as std::ops::Drop>::drop, g::ghost_ownedfd_drop)]
         #[kani::stub(std::alloc::handle_alloc_error, g::ghost_alloc_error)]
@@ -666,6 +671,7 @@ macro_rules! e_fe_cfg {
         #[kani::unwind(5)]
         #[kani::stub(vmm_sys_util::sock_ctrl_msg::raw_recvmsg, fe_recvmsg)]
         #[kani::stub(vmm_sys_util::sock_ctrl_msg::raw_sendmsg, fe_sendmsg)]
+        #[kani::stub(std::sync::Mutex::lock, g::ghost_mutex_lock)]
         #[kani::stub(libc::close, g::ghost_close)]
         #[kani::stub(<std::os::fd::OwnedFd as std::ops::Drop>::drop, g::ghost_ownedfd_drop)]
         #[kani::stub(std::alloc::handle_alloc_error, g::ghost_alloc_error)]
